@@ -1112,10 +1112,16 @@ def _run_config(mode, nw, fs, cases):
             o.start()
         procs = sorted(set(_descendants(os.getpid())) - before)
         # warm-up conversation (not recorded): every process has served or at least started
-        w = _Conv(('127.0.0.1', pport), [('send', b'GET /c17/hello HTTP/1.1\r\nHost: px\r\n\r\n'), ('http',)])
-        w.run()
-        time.sleep(0.05)
-        base = _socket_fds(procs)
+        for _ in range(2 * nw + 1):
+            w = _Conv(('127.0.0.1', pport), [('send', b'GET /c17/hello HTTP/1.1\r\nHost: px\r\n\r\n'), ('http',)])
+            w.run()
+        # baseline once every process has finished starting (event loops, queues): stable for 0.4 s
+        base, same, t_end = _socket_fds(procs), 0, time.time() + 10.0
+        while same < 8 and time.time() < t_end:
+            time.sleep(0.05)
+            cur = _socket_fds(procs)
+            same = same + 1 if cur == base else 0
+            base = cur
         for c in cases:
             lines = _run_scenario(c, pport, origins)
             # descriptor hygiene: every socket of the scenario is closed again in every proxy process
